@@ -171,6 +171,19 @@ bool Symmetrizer::checkSymmetry(const Operator &in)
         if (!OperatorPresets::n(i).commutes(*OP1)) return false;
     }
 
+    // Check that every c^+_i maps an eigenspace of OP1 into one eigenspace: [OP1, c^+_i] must be
+    // proportional to c^+_i (true for operators linear in the occupation numbers, false e.g. for (N-1)^2).
+    // Otherwise field operators connect one block to several blocks.
+    for(ParticleIndex i = 0; i < IndexSize; ++i) {
+        Operator cdag = OperatorPresets::c_dag(i);
+        Operator comm = OP1->getCommutator(cdag);
+        if (comm.isEmpty()) continue;
+        Operator::const_iterator it = comm.begin();
+        const Operator::monomial_t &m = it->first;
+        if (m.size() != 1 || boost::get<0>(m[0]) != Operator::creation || boost::get<1>(m[0]) != i) return false;
+        if (++it != comm.end()) return false;
+    }
+
     Operations.push_back(OP1);
     NSymmetries++;
     return true;
